@@ -264,7 +264,9 @@ func RunSchedule(id int, s Schedule, timeout time.Duration) vt.Ev {
 			case f.Site == "encode" && ((f.I == 1 && st.G == "write.registered") || (f.I > 1 && st.G == "write.encoded" && encoded[p] == f.I-1)),
 				f.Site == "sync" && st.G == "write.presync":
 				if fileOf[p] == nil {
-					vt.Fatal("no run file known for %s", p)
+					// the implementation reached this gate without having registered a run file, which the
+					// model says it has: a divergence of the code, not a harness failure
+					return fail(i, fmt.Errorf("%s stands at %q but has not registered its run file (the model's writer has)", p, st.G))
 				}
 				fileOf[p].Close()
 			}
